@@ -89,12 +89,16 @@ def _validate_data_flow_compatibility(inspection: PipelineInspection) -> None:
         - Errors are added to the node that has the incompatible input type
         - Only validates consecutive data-processing nodes
     """
-    for i in range(len(inspection.nodes) - 1):
-        current_node = inspection.nodes[i]
-        next_node = inspection.nodes[i + 1]
+    # Data passes unchanged through nodes without data types (e.g., context
+    # processors), so compare against the last node that declared an output type.
+    last_typed_node = None
+    for next_node in inspection.nodes:
+        current_node = last_typed_node
+        if next_node.output_type is not None:
+            last_typed_node = next_node
 
-        # Skip validation if either node has no data types (e.g., context processors)
-        if current_node.output_type is None or next_node.input_type is None:
+        # Skip validation when there is no typed predecessor or no typed input
+        if current_node is None or next_node.input_type is None:
             continue
 
         # Check if output type of current node is compatible with input type of next node
